@@ -17,8 +17,13 @@ def exe_for(case):
     return C.ANA_EXE if case.get("exe") == "analyze" else C.CORE_EXE
 
 
+IMPL_RUNNER = None     # a plugin may run the implementation itself (C18: under strace, to observe the files opened)
+
+
 def run_cases(cases, which):
     """which = 'impl' | 'model'; groups by executable, keeps order."""
+    if which == "impl" and IMPL_RUNNER is not None:
+        return IMPL_RUNNER(cases)
     replies = [None] * len(cases)
     groups = {}
     for i, c in enumerate(cases):
@@ -51,6 +56,8 @@ def main():
         i += 1
     seed = int(os.environ.get("VERIF_SEED", "1"))
     P = load(pid)
+    global IMPL_RUNNER
+    IMPL_RUNNER = getattr(P, "impl_runner", None)
     t0 = time.time()
     rng = C.Rng(seed * 1000003 + sum(map(ord, pid)))
 
@@ -151,6 +158,9 @@ def main():
     known_hit, new_failures = [], []
     for f in failures:
         k = known_lines.get(f["case"]["line"])
+        if k is None:
+            # a finding about a CALL SITE rather than one input: the oracle marks the failures it explains
+            k = next((x for x in known if x.get("why_prefix") and f["why"].startswith(x["why_prefix"])), None)
         if k is not None:
             known_hit.append((k, f))
         else:
@@ -177,6 +187,7 @@ def main():
         "theorems": details,
         "proof_problems": problems,
         "regenerated_this_run": regenerated,
+        "panic_ledger_drift": list(C.LEDGER_DRIFT),
         "evaluations": len(cases),
         "distinct_nontrivial": len(nontriv),
         "rule": P.RULE,
@@ -195,8 +206,8 @@ def main():
 
     # ---- 5. verdict
     rc = 0
-    for k, f in known_hit:
-        print(f"KNOWN-FINDING: property={pid} {k['fails']}")
+    for fails in dict.fromkeys(k["fails"] for k, f in known_hit):
+        print(f"KNOWN-FINDING: property={pid} {fails}")
     proofs_hold = proof_ok and not problems and obligations > 0 and discharged == obligations
     if new_failures:
         f = new_failures[0]
